@@ -11,7 +11,7 @@ func init() {
 	register(&propCheck{
 		ID:  "C06",
 		Run: runC06,
-		Level: "Static analysis (abstract interpretation of every Len / MarshalBinary over the typed AST, symbolic size terms). Also decided: wirelen (the C02 rule) — an encoder that sizes its buffer from a stored length finds that length equal to the bytes the element occupies at the moment of encoding; order/<builder>/every-path — an adder adds on every successful path." +
+		Level: "Static analysis (abstract interpretation of every Len / MarshalBinary over the typed AST, symbolic size terms). Also decided: wirelen (the C02 rule) — an encoder that sizes its buffer from a stored length finds that length equal to the bytes the element occupies at the moment of encoding; order/<builder>/every-path — an adder adds on every successful path. Also decided: errfail (as in C02): a child that cannot be encoded fails the parent instead of being left out of an encoding whose size still counts it." +
 			"Decides, for every encodable kind in every package: size/<kind> — the length of the slice the encoder returns and the extent it writes are the same term as the size function's result (for all field values and child counts at once, by induction over kinds), up to the grammar's zero padding, under constructor-established widths of fixed-size fields and the reviewed declared-length premises; " +
 			"embed/<kind>/<child> — each child's complete encoding is placed, not a capped window of it; nooverlap/<kind> — no two writes provably overlap. " +
 			"Not decided: the 16-bit wrap of a total above 65535 bytes; the bytes.Buffer/binary.Write kinds (DHCP, LLDP TLVs) beyond what is listed; values of fields (C03).",
